@@ -128,13 +128,19 @@ def _work(job):
         dt0 = 0.0
         if small is not None:
             # hypothesis subset named by the contract (`uses`): unsat here is a proof (dropping hypotheses is sound);
-            # anything else is inconclusive and the full query decides
-            for em in (False, True):
-                r, dt, model, why = _check_z3(small, max(t_z3 // 2, 2000), ematch_only=em)
-                dt0 += dt
-                if r == "unsat":
-                    return idx, "unsat", "z3", dt0, None, ""
+            # anything else is inconclusive and the full query decides.  Short first attempt (the subset either works at once or not at all) ...
+            r, dt, model, why = _check_z3(small, min(3000, t_z3))
+            dt0 += dt
+            if r == "unsat":
+                return idx, "unsat", "z3", dt0, None, ""
         r, dt, model, why = _check_z3(text, t_z3)
+        if r == "unknown" and small is not None:
+            # ... and two long ones only if the full query could not decide either
+            for em in (False, True):
+                r1, dt1, model1, why1 = _check_z3(small, max(t_z3 // 2, 2000), ematch_only=em)
+                dt0 += dt1
+                if r1 == "unsat":
+                    return idx, "unsat", "z3", dt0 + dt, None, ""
         if r == "unknown":
             r1, dt1, model1, why1 = _check_z3(text, t_z3, ematch_only=True)
             dt += dt1
